@@ -132,7 +132,7 @@ def checked_flow(rep, model):
         for tn, tk in tks.items():
             inst = f'burst_kwargs={bn}:thresholds={tn}'
             res, ctx = E.run(model, 'compute_features', {'burst_method': C('amp'), 'burst_kwargs': bk, 'threshold_kwargs': tk}, no_inline=E.HEAVY,
-                             kinds={'fs': 'num', 'f_range': 'tuple'})
+                             kinds={'fs': 'num', 'f_range': 'tuple', 'B_min_n_cycles': 'num', 'T_min_n_cycles': 'num', 'bft': 'num'})
             e1, e2 = E.calls_to(ctx, 'compute_burst_fraction'), E.calls_to(ctx, 'detect_bursts_amp')
             if len(e1) != 1 or len(e2) != 1:
                 rep.violation('CHECKED-FLOW', inst, site, expected='one call each of compute_burst_fraction and detect_bursts_amp', found=f'{len(e1)} / {len(e2)} calls')
